@@ -50,6 +50,9 @@ FileSize(n) == HdrSize + CountSize + RecSize * n
 RecOffset(i) == HdrSize + CountSize + RecSize * (i - 1)      \* 1-based record number
 
 SizeLaw(f, n) == f.nbytes = 84 + 50 * n /\ f.count = n /\ f.rem = 0 /\ Len(f.recs) = n
+\* the same law on a file logged without its records ("sz" lines: [nbytes, count, rem, nrecs], for
+\* triangle counts too large to judge record by record; 84 + 50 n stays below 2^31 for n < 4e7)
+SizeLawN(f, n) == f.nbytes = 84 + 50 * n /\ f.count = n /\ f.rem = 0 /\ f.nrecs = n
 
 (* ------------------------------- vectors ------------------------------- *)
 Abs(x) == IF x < 0 THEN 0 - x ELSE x
